@@ -118,7 +118,7 @@ def work_c02(prop, tier, seed, widx, nworkers):
            # one-of heavy: shared lazies (a node that is a case and a candidate's dependency ...), containment and
            # deep-chain shapes
            gen.profile(p_oneof=0.4, p_sw=0.25, p_rec=0.1, p_share_lazy=0.4, p_share_cand=0.3, p_reuse_lazy=0.3,
-                       p_global_share=0.35, p_deep_chain=0.3, p_contain_shape=0.3, p_lazy_fail_shape=0.25, n_max=12, max_depth=4, p_fail=0.25)]
+                       p_global_share=0.35, p_deep_chain=0.3, p_contain_shape=0.3, p_lazy_fail_shape=0.25, p_reuse_switch=0.25, p_shared_switch_shape=0.3, n_max=12, max_depth=4, p_fail=0.25)]
     for i in range(90 if tier == 'quick' else 1050):
         prog = gen.gen_program(rng, big[i % 3])
         _tagcount(acc, prog)
